@@ -119,7 +119,8 @@ func (t *Term) SVal() *big.Int {
 func Var(name string, s Sort) *Term {
 	if d, ok := TS.ufs[name]; ok {
 		if d.ret != s || len(d.args) != 0 {
-			panic("Var redeclared with different sort: " + name)
+			// the same source name at another sort (another harness): separate symbol
+			return Var(fmt.Sprintf("%s@%d", name, int(s)), s)
 		}
 	} else {
 		TS.ufs[name] = ufDecl{ret: s}
@@ -425,33 +426,12 @@ func bvbin(op string, a, b *Term) *Term {
 	isZero := func(t *Term) bool { return t.IsConst() && t.val.Sign() == 0 }
 	switch op {
 	case "bvadd":
-		if isZero(a) {
-			return b
-		}
-		if isZero(b) {
-			return a
-		}
-		// (x + c1) + c2
-		if b.IsConst() && a.op == "bvadd" && a.args[1].IsConst() {
-			return bvbin("bvadd", a.args[0], bvbin("bvadd", a.args[1], b))
-		}
-		if a.IsConst() && !b.IsConst() {
-			a, b = b, a
-		}
+		return bvSum(w, a, b)
 	case "bvsub":
-		if isZero(b) {
-			return a
-		}
 		if a == b {
 			return BVConst(0, w)
 		}
-		if b.IsConst() {
-			return bvbin("bvadd", a, BVConstBig(new(big.Int).Neg(b.val), w))
-		}
-		// (x + c) - x = c
-		if a.op == "bvadd" && a.args[0] == b {
-			return a.args[1]
-		}
+		return bvSum(w, a, BVNeg(b))
 	case "bvmul":
 		if isZero(a) || isZero(b) {
 			return BVConst(0, w)
@@ -512,7 +492,83 @@ func BVNeg(a *Term) *Term {
 	if a.IsConst() {
 		return BVConstBig(new(big.Int).Neg(a.val), a.sort)
 	}
+	if a.op == "bvneg" {
+		return a.args[0]
+	}
+	if a.op == "bvadd" {
+		// -(x + y + c) = -x + -y + -c
+		ns := make([]*Term, len(a.args))
+		for i, x := range a.args {
+			ns[i] = BVNeg(x)
+		}
+		return bvSum(a.sort, ns...)
+	}
 	return mk("bvneg", a.sort, a)
+}
+
+// bvSum builds a normalised sum: flattened, non-constant terms sorted by id,
+// x and -x cancelled, a single constant last.
+func bvSum(w Sort, xs ...*Term) *Term {
+	c := new(big.Int)
+	var ts []*Term
+	var add func(t *Term)
+	add = func(t *Term) {
+		switch {
+		case t.IsConst():
+			c.Add(c, t.val)
+		case t.op == "bvadd":
+			for _, a := range t.args {
+				add(a)
+			}
+		default:
+			ts = append(ts, t)
+		}
+	}
+	for _, x := range xs {
+		if x.sort != w {
+			panic(fmt.Sprintf("bvadd sort mismatch %v %v", x.sort, w))
+		}
+		add(x)
+	}
+	// cancel x with -x
+	cnt := map[int]int{}
+	byID := map[int]*Term{}
+	for _, t := range ts {
+		if t.op == "bvneg" {
+			cnt[t.args[0].id]--
+			byID[t.args[0].id] = t.args[0]
+		} else {
+			cnt[t.id]++
+			byID[t.id] = t
+		}
+	}
+	var ids []int
+	for id := range cnt {
+		ids = append(ids, id)
+	}
+	sort.Ints(ids)
+	var out []*Term
+	for _, id := range ids {
+		n := cnt[id]
+		t := byID[id]
+		for ; n > 0; n-- {
+			out = append(out, t)
+		}
+		for ; n < 0; n++ {
+			out = append(out, mk("bvneg", w, t))
+		}
+	}
+	cc := BVConstBig(c, w)
+	if cc.val.Sign() != 0 {
+		out = append(out, cc)
+	}
+	switch len(out) {
+	case 0:
+		return BVConst(0, w)
+	case 1:
+		return out[0]
+	}
+	return mk("bvadd", w, out...)
 }
 
 func bvcmp(op string, a, b *Term) *Term {
@@ -719,7 +775,15 @@ func (p *Printer) Ref(t *Term) string {
 		case "zero_extend", "sign_extend":
 			body = fmt.Sprintf("((_ %s %d) %s)", cur.op, cur.hi, as[0])
 		default:
-			body = fmt.Sprintf("(%s %s)", cur.op, strings.Join(as, " "))
+			if cur.op == "bvadd" && len(as) > 2 {
+				acc := as[0]
+				for _, x := range as[1:] {
+					acc = fmt.Sprintf("(bvadd %s %s)", acc, x)
+				}
+				body = acc
+			} else {
+				body = fmt.Sprintf("(%s %s)", cur.op, strings.Join(as, " "))
+			}
 		}
 		name := fmt.Sprintf("t%d", cur.id)
 		fmt.Fprintf(&p.sb, "(define-fun %s () %s %s)\n", name, cur.sort, body)
@@ -788,7 +852,9 @@ func rebuild(t *Term, a []*Term) *Term {
 		return Ite(a[0], a[1], a[2])
 	case "=":
 		return Eq(a[0], a[1])
-	case "bvadd", "bvsub", "bvmul", "bvand", "bvor", "bvxor", "bvshl", "bvlshr", "bvashr", "bvudiv", "bvurem", "bvsdiv", "bvsrem":
+	case "bvadd":
+		return bvSum(t.sort, a...)
+	case "bvsub", "bvmul", "bvand", "bvor", "bvxor", "bvshl", "bvlshr", "bvashr", "bvudiv", "bvurem", "bvsdiv", "bvsrem":
 		return bvbin(t.op, a[0], a[1])
 	case "bvult", "bvule", "bvslt", "bvsle":
 		return bvcmp(t.op, a[0], a[1])
